@@ -864,7 +864,7 @@ Definition pm_conn (e : env) (tcp : option nat) (m2 : message) (x : ctx) : messa
     end.
 
 Definition pm_tail (e : env) (peer : bytes) (peer_port : Z) (from : stransport)
-           (m3 : message) (p1 : pstate) (l1 : learned) (x : ctx) : ctx :=
+           (m3 : message) (p1 : pstate) (l1 : learned) (x : ctx) : res ctx :=
   let m4 := fst (mtry (try_remove_top_route (e_cfg e) from) m3) in
   let '(m5, p2) :=
     if is_response m4 then
@@ -872,7 +872,7 @@ Definition pm_tail (e : env) (peer : bytes) (peer_port : Z) (from : stransport)
       (m', match r with Ok p' => p' | _ => p1 end)
     else (m4, p1) in
   let x1 := {| x_learned := l1; x_p := p2; x_conns := x_conns x; x_world := x_world x; x_outs := x_outs x |} in
-  fst (handle_message e from m5 x1).
+  Ok (fst (handle_message e from m5 x1)).
 
 Lemma process_message_unfold e peer peer_port from rs tcp m0 x :
   process_message e peer peer_port from rs tcp m0 x =
@@ -882,9 +882,14 @@ Lemma process_message_unfold e peer peer_port from rs tcp m0 x :
   match rp with
   | Panic => Panic
   | Err => Err
-  | Ok p1 => Ok (pm_tail e peer peer_port from m3 p1 l1 x)
+  | Ok p1 => pm_tail e peer peer_port from m3 p1 l1 x
   end.
-Proof. reflexivity. Qed.
+Proof.
+  unfold process_message. fold (pm_learn peer from m0 x). destruct (pm_learn peer from m0 x) as [m1 l1].
+  cbv zeta.
+  set (m2 := if (is_request m1 && rs)%bool then fst (s_set_received peer peer_port m1) else m1).
+  fold (pm_conn e tcp m2 x). destruct (pm_conn e tcp m2 x) as [m3 [p1| |]]; reflexivity.
+Qed.
 
 (* the learned table after the message has been looked at *)
 Definition learned_after (peer : bytes) (from : stransport) (m0 : message) (x : ctx) : learned :=
@@ -969,9 +974,9 @@ Proof.
   rewrite process_message_unfold. destruct (pm_learn_spec peer from m0 x) as (L & _).
   destruct (pm_learn peer from m0 x) as [m1 l1]. cbn [snd] in L. subst l1. cbv zeta.
   destruct (pm_conn e tcp _ x) as [m3 rp]. destruct rp as [p1| |]; try discriminate.
-  intros H. injection H as <-. unfold pm_tail. cbv zeta.
+  unfold pm_tail. cbv zeta.
   match goal with |- context [let '(m5, p2) := ?X in _] => destruct X as [m5 p2] end.
-  exists m5, p2. reflexivity.
+  intros H. injection H as <-. exists m5, p2. reflexivity.
 Qed.
 
 (* a request: nothing but Via and CSeq headers has been touched (decoded in place, received /
@@ -995,17 +1000,200 @@ Proof.
   pose proof (pm_conn_frame e tcp m2 x) as F3. pose proof (pm_conn_same_rr e tcp m2 x) as SR.
   destruct (pm_conn e tcp m2 x) as [m3 rp]. cbn [fst snd] in F3, SR.
   destruct rp as [p1| |]; try discriminate.
-  intros H. injection H as <-. exists m3, p1.
+  intros H. exists m3, p1.
   assert (F : forall nm, disjoint_names nm (s2b "Via") -> disjoint_names nm (s2b "CSeq") -> frame nm m0 m3).
   { intros nm DV DC. eapply frame_trans; [apply F1; exact DV|]. eapply frame_trans; [apply F2; exact DV|].
     apply F3; assumption. }
   split; [exact F|]. split; [apply SR; reflexivity|].
-  unfold pm_tail. cbv zeta.
-  set (m4 := fst (mtry (try_remove_top_route (e_cfg e) from) m3)).
+  unfold pm_tail in H. cbv zeta in H.
+  set (m4 := fst (mtry (try_remove_top_route (e_cfg e) from) m3)) in *.
   assert (R4 : is_response m4 = false).
   { unfold is_response. replace (is_request m4) with true; [reflexivity|]. symmetry.
     rewrite (frame_request (s2b "To") m3 m4).
     - rewrite (frame_request (s2b "To") m0 m3); [exact R|]. apply F; [exact dj_To_Via|exact dj_To_CSeq].
     - apply (mframe_try _ _ (mframe_try_remove_top_route _ _ _ dj_To_Route)). }
-  rewrite R4. reflexivity.
+  rewrite R4 in H. injection H as <-. reflexivity.
 Qed.
+
+(* ------------------------------------------------------------------ f (cont.) where the Via / Record-Route come from *)
+Lemma all_vias_sel hs hs' : sel (s2b "Via") hs' = sel (s2b "Via") hs -> all_vias hs' = all_vias hs.
+Proof. unfold all_vias. intros ->. reflexivity. Qed.
+Lemma all_rr_sel hs hs' : sel (s2b "Record-Route") hs' = sel (s2b "Record-Route") hs -> all_rr hs' = all_rr hs.
+Proof. unfold all_rr. intros ->. reflexivity. Qed.
+
+(* decoding the first Via header in place does not change the flattened list *)
+Lemma all_vias_get_via m : all_vias (m_headers (fst (s_get_via m))) = all_vias (m_headers m).
+Proof.
+  unfold s_get_via, typed_get. rewrite get_header_sel.
+  destruct (sel (s2b "Via") (m_headers m)) as [|h r] eqn:S; [reflexivity|]. cbn [hd_error].
+  destruct (h_val h) eqn:V; try reflexivity.
+  destruct (parse_via s) as [l| |] eqn:P; try reflexivity.
+  cbn [fst set_val with_headers m_headers]. unfold all_vias. rewrite sel_update_same, S.
+  cbn [flat_map h_val dec_via]. rewrite V. cbn [dec_via]. rewrite P. reflexivity.
+Qed.
+
+Lemma all_vias_client_transaction m :
+  all_vias (m_headers (fst (mtry s_client_transaction m))) = all_vias (m_headers m).
+Proof.
+  unfold mtry, s_client_transaction, mbind.
+  pose proof (mframe_get_cseq _ dj_Via_CSeq m) as F.
+  destruct (s_get_cseq m) as [m1 r1]. cbn [fst] in F.
+  assert (E1 : all_vias (m_headers m1) = all_vias (m_headers m)) by (apply all_vias_sel, F).
+  destruct r1 as [c| |]; try exact E1.
+  unfold s_top_via, mbind. pose proof (all_vias_get_via m1) as E2.
+  destruct (s_get_via m1) as [m2 r2]. cbn [fst] in E2. rewrite <- E1, <- E2.
+  destruct r2 as [[|v l]| |]; try reflexivity. cbn. destruct (via_get_branch v); reflexivity.
+Qed.
+
+Lemma has_header_frame nm m m' : frame nm m m' -> has_header nm m' = has_header nm m.
+Proof. intros (S & _). rewrite !has_header_sel, S. reflexivity. Qed.
+
+(* a next hop learned through transport [t]: exactly one Via of [t] on top, Record-Route of [t]
+   by policy, nothing else touched *)
+Theorem C06_decorate_learned : forall e l host t m,
+  alookup host l = Some t ->
+  all_vias (m_headers (decorate e l host m)) = pushed_via e t :: all_vias (m_headers m) /\
+  all_rr (m_headers (decorate e l host m)) =
+    (if (has_header (s2b "Record-Route") m || pa_must_rr (wire_proxy (e_lc e)))%bool
+     then own_record_route t :: all_rr (m_headers m) else all_rr (m_headers m)) /\
+  m_start (decorate e l host m) = m_start m /\ m_body (decorate e l host m) = m_body m /\
+  (forall nm, same_header (s2b "Via") nm = false -> same_header (s2b "Record-Route") nm = false ->
+              frame nm m (decorate e l host m)).
+Proof.
+  intros e l host t m A. unfold decorate. rewrite A.
+  destruct (C06_via_pushed e t m) as (_ & St & Bo & _ & AV & Fr).
+  set (m1 := px_add_via e t m) in *. set (must := pa_must_rr (wire_proxy (e_lc e))).
+  assert (HH : has_header (s2b "Record-Route") m1 = has_header (s2b "Record-Route") m).
+  { apply has_header_frame, Fr. reflexivity. }
+  pose proof (C06_rr_policy must t m1) as P. rewrite C06_rr_flat, HH. rewrite HH in P.
+  assert (ARR : all_rr (m_headers m1) = all_rr (m_headers m)) by (apply all_rr_sel, Fr; reflexivity).
+  destruct (has_header (s2b "Record-Route") m || must)%bool.
+  - destruct P as (_ & St' & Bo' & _ & _ & Fr'). rewrite ARR. split.
+    + rewrite <- AV. apply all_vias_sel, Fr'. reflexivity.
+    + split; [reflexivity|]. split; [congruence|]. split; [congruence|].
+      intros nm N1 N2. eapply frame_trans; [apply Fr; exact N1|apply Fr'; exact N2].
+  - rewrite P, ARR. split; [exact AV|]. split; [reflexivity|]. split; [exact St|]. split; [exact Bo|].
+    intros nm N1 _. apply Fr. exact N1.
+Qed.
+
+(* the next-hop host is not in the learned table: neither a Via nor a Record-Route is added *)
+Theorem C06_not_learned_untouched : forall e l host m, alookup host l = None -> decorate e l host m = m.
+Proof. intros e l host m A. unfold decorate. rewrite A. reflexivity. Qed.
+
+(* sendToBackend: Via and Record-Route name the FIRST transport of the listener *)
+Theorem C06_backend_decorates : forall e t0 p m,
+  all_vias (m_headers (backend_message e t0 p m)) = pushed_via e t0 :: all_vias (m_headers m) /\
+  all_rr (m_headers (backend_message e t0 p m)) =
+    (if (has_header (s2b "Record-Route") m || pa_must_rr (wire_proxy (e_lc e)))%bool
+     then own_record_route t0 :: all_rr (m_headers m) else all_rr (m_headers m)).
+Proof.
+  intros e t0 p m. unfold backend_message.
+  pose proof (mframe_find_backend_by_dialog _ dj_Via_CSeq dj_Via_From dj_Via_To e p m) as FV.
+  pose proof (mframe_find_backend_by_dialog _ dj_RR_CSeq dj_RR_From dj_RR_To e p m) as FR.
+  set (m1 := fst (find_backend_by_dialog e p m)) in *.
+  destruct (C06_decorate_learned e [(s2b "h", t0)] (s2b "h") t0 m1 eq_refl) as (AV & AR & _).
+  change (decorate e [(s2b "h", t0)] (s2b "h") m1)
+    with (px_add_record_route (pa_must_rr (wire_proxy (e_lc e))) t0 (px_add_via e t0 m1)) in AV, AR.
+  rewrite AV, AR, (has_header_frame _ _ _ FR), (all_vias_sel _ _ (proj1 FV)), (all_rr_sel _ _ (proj1 FR)).
+  split; reflexivity.
+Qed.
+
+(* ------------------------------------------------------------------ h. branches *)
+Lemma digits_val_zeros k s : digits_val (repeat "0"%char k ++ s) 0 = digits_val s 0.
+Proof. induction k as [|k IH]; [reflexivity|]. cbn [repeat app digits_val]. exact IH. Qed.
+
+Lemma branch_of_decode n : digits_val (skipn 13 (branch_of n)) 0 = Some (Z.of_nat n).
+Proof.
+  unfold branch_of, pad_left. cbn [s2b list_ascii_of_string app skipn].
+  rewrite digits_val_zeros. unfold itoa.
+  destruct (Z.ltb_spec (Z.of_nat n) 0) as [L|_]; [lia|].
+  rewrite digits_val_utoa, Z2N.id by lia. reflexivity.
+Qed.
+
+Theorem branch_of_inj : forall a b, branch_of a = branch_of b -> a = b.
+Proof.
+  intros a b H. pose proof (branch_of_decode a) as Ha. rewrite H, branch_of_decode in Ha.
+  injection Ha as Ha. lia.
+Qed.
+
+Theorem branch_of_cookie : forall n, has_prefix (s2b "z9hG4bK") (branch_of n) = true.
+Proof. intros n. reflexivity. Qed.
+
+(* along any event list the branches handed to the steps are pairwise distinct.  The real code
+   draws 48 random bits per branch (uuid.NewRandom): freshness of the REAL branches is a
+   probabilistic fact about the entropy source, measured by the harness (20 000 relayed requests,
+   no collision), not proved here. *)
+Theorem C06_branches_distinct : forall e0 n, NoDup (map branch_of (seq e0 n)).
+Proof.
+  intros e0 n. apply FinFun.Injective_map_NoDup; [exact branch_of_inj|apply seq_NoDup].
+Qed.
+
+(* run_events hands branch_of (event index) to the step of that event *)
+Theorem run_events_branch : forall c ue e st ev r,
+  run_events c ue e st (ev :: r) =
+  match proxy_step current_fixes c (Z.of_nat e * ms) (branch_of e) st ev with
+  | Ok (st', outs) =>
+      Wire.e_list e_output (filter (visible ue) outs)
+      ++ Wire.e_list (fun n => [Wire.e_nat n]) (newly_closed (st_conns st) (st_conns st'))
+      ++ run_events c ue (S e) st' r
+  | Err => [s2b "err"]
+  | Panic => [s2b "panic"]
+  end.
+Proof. reflexivity. Qed.
+
+(* ------------------------------------------------------------------ i. learning *)
+Lemma same_transport_refl t : same_transport t t = true.
+Proof. unfold same_transport. rewrite !beq_refl, Z.eqb_refl. reflexivity. Qed.
+
+(* look-up after learn: the entry of [ip] is the old one when it names the same transport
+   (protocol, address, port), the new transport otherwise; other hosts are not affected *)
+Theorem learn_lookup : forall k ip t l,
+  alookup k (learn ip t l) =
+  if beq k ip
+  then Some (match alookup ip l with
+             | Some old => if same_transport old t then old else t
+             | None => t
+             end)
+  else alookup k l.
+Proof.
+  intros k ip t l. unfold learn. destruct (beq k ip) eqn:E.
+  - apply beq_eq in E. subst k. destruct (alookup ip l) as [old|] eqn:A.
+    + destruct (same_transport old t); [exact A|apply alookup_aset_same].
+    + apply alookup_aset_same.
+  - apply beq_neq in E. destruct (alookup ip l) as [old|].
+    + destruct (same_transport old t); [reflexivity|apply alookup_aset_other; exact E].
+    + apply alookup_aset_other. exact E.
+Qed.
+
+(* learn leaves the table as it is iff the host already maps to the same transport *)
+Theorem learn_keeps_iff : forall ip t l,
+  learn ip t l = l <-> exists old, alookup ip l = Some old /\ same_transport old t = true.
+Proof.
+  intros ip t l. split.
+  - intros H. pose proof (learn_lookup ip ip t l) as L. rewrite H, beq_refl in L.
+    destruct (alookup ip l) as [old|]; [|discriminate]. exists old. split; [reflexivity|].
+    destruct (same_transport old t) eqn:S; [reflexivity|]. injection L as ->. rewrite same_transport_refl in S. discriminate.
+  - intros (old & A & S). unfold learn. rewrite A, S. reflexivity.
+Qed.
+
+(* the learned table after ANY message: requests from a peer that is not a key of the backend
+   table teach the peer address and every host of every Via header that decodes, in this order;
+   everything else (responses, requests from a backend key) leaves the table alone.
+   NOTE: the keys of Proxy.backends are "ip:port" strings while [peer] is the bare IP of the
+   sender (rawMessage.PeerAddr), so the exclusion of backends can only apply to a backend
+   configured without port separator; requests coming from a backend DO teach. *)
+Theorem C06_learning : forall e peer peer_port from rs tcp m0 x x',
+  process_message e peer peer_port from rs tcp m0 x = Ok x' ->
+  x_learned x' =
+  if (is_request m0 && negb (amem peer (ps_backends (x_p x))))%bool
+  then fold_left (fun l h => learn h from l) (peer :: map v_host (all_vias (m_headers m0))) (x_learned x)
+  else x_learned x.
+Proof.
+  intros e peer pp from rs tcp m0 x x' H. apply process_message_shape in H.
+  destruct H as (m5 & p2 & ->). rewrite (proj1 (handle_message_shape e from m5 _)). reflexivity.
+Qed.
+
+Theorem C06_learning_response : forall e peer peer_port from rs tcp m0 x x',
+  is_request m0 = false ->
+  process_message e peer peer_port from rs tcp m0 x = Ok x' -> x_learned x' = x_learned x.
+Proof. intros e peer pp from rs tcp m0 x x' R H. rewrite (C06_learning _ _ _ _ _ _ _ _ _ H), R. reflexivity. Qed.
